@@ -44,8 +44,10 @@ def _sys_holds(m0, x):
     return And(*[SP.eq(sum(m0[i][j] * x[j] for j in range(n)), m0[i][n]) for i in range(len(m0))])
 
 
-def make_solve_harness(R, N, pattern=None):
-    """R equations, N unknowns; pattern: optional tuple of bools = which leading-column entries are zero (case split)"""
+def make_solve_harness(R, N, pattern=None, free_values_clause=False):
+    """R equations, N unknowns; pattern: optional tuple of bools = which leading-column entries are zero (case split).
+    free_values_clause: also prove the clause that the stub contract of solve() (contracts.common.SolutionStub) hands to callers beyond C16's
+    statement - the given free values appear, in order, among the components of the result (used from props/C17)."""
 
     def h(vc):
         g = C.G()
@@ -80,6 +82,8 @@ def make_solve_harness(R, N, pattern=None):
             vc.ensure("(ii) tuple of N numbers, no None", ok)
             if ok:
                 vc.ensure("(ii) result satisfies every original equation", _sys_holds(m0, x))
+                if free_values_clause:
+                    vc.ensure("callee contract: the given free values appear, in order, among the components of the result", C.free_values_appear(list(x), free))
                 if vc.symbolic and k == 0:
                     vc.ensure("probe: the solution is always the zero vector", And(*[SP.eqz(v) for v in x]), kind="must-fail")
         else:
